@@ -272,9 +272,31 @@ fn is_group(lay: &[(String, usize, Option<String>)], at: usize, tags: &[&str]) -
     tags.iter().any(|t| p.starts_with(&format!("probe {} ", t)))
 }
 
+/// every `exit_on_error <value>` line is announced by a `probe F <value>` line right before it
+fn announcements_ok(lay: &[(String, usize, Option<String>)]) -> bool {
+    for (i, (text, _, _)) in lay.iter().enumerate() {
+        let t = text.trim();
+        let t = match t.find(" = ") { Some(p) if !t[..p].contains(' ') => t[p + 3..].trim(), _ => t };
+        let rest = match t.strip_prefix("set_exit_on_error").or_else(|| t.strip_prefix("exit_on_error")) { Some(r) => r, None => continue };
+        if rest.trim().is_empty() {
+            continue;
+        }
+        if !rest.starts_with(' ') {
+            return false;
+        }
+        let prev = if i > 0 { lay[i - 1].0.trim() } else { "" };
+        if prev.strip_prefix("probe F").map(|p| p.trim()) != Some(rest.trim()) {
+            return false;
+        }
+    }
+    true
+}
+
 fn check(r: &Req, o: &Obs) -> Result<(), String> {
     let lay = layout(r);
-    let has_gn = r.queue.iter().any(|q| q.starts_with("GN"));
+    // the mode can only be tracked from the log when no scripted result jumps to a line
+    // number (which could skip an announcement) and all switches are announced
+    let has_gn = r.queue.iter().any(|q| q.starts_with("GN")) || !announcements_ok(&lay);
     let pos = |idx: usize| -> (String, String, Option<usize>, Option<String>) {
         match lay.get(idx) {
             Some((_, n, s)) => (n.to_string(), s.clone().unwrap_or_default(), Some(*n), s.clone()),
